@@ -14,6 +14,9 @@ from . import rulelib as RL
 PROPERTY = "C12"
 SRC_DIR = None
 KNOWN_PREDICATES = {}
+LEVEL_TEXT = ('Seeded search over query histories: three twins of one finite rule or set (uncached, cached-cold, cached-warmed by a generated prefix) receive generated sequences of index/slice/contains/before/after/between/xafter/count queries with boundary arguments, partial iterations and replace() calls; every answer must equal list semantics on the uncached listing, whatever the cache state (off/empty/partial/complete) and whatever ran before. Sampling of histories and arguments.')
+LEVEL_NOTE = ('Trusted: list(uncached twin) as L (the property is stated relative to it); Python list semantics as the query model. Single thread; thread schedules over the same cache are C11.')
+TECHNIQUE = ('deterministic simulation of cache-state histories against a list reference model')
 
 CLASSES = {
     "hist": dict(quick=12000, thorough=300000, timeout=30),
